@@ -24,6 +24,8 @@ Menu       bal2 (``balance`` twice per row, vy between), agg (two aggregates, GR
            (placeholders), ent (the #entries table), oc (FROM OPEN ON .. CLOSE ON ..), ht (harness table).
            oc1..oc4 (FROM OPEN/CLOSE/CLEAR with different windows, compile point after FROM) and b*/j* (BALANCES /
            JOURNAL pairs with a compile point inside FROM) are explored as pairs only.
+           fa/fb, fs/fs2/fh, fd/fd2: vy() as a later ARGUMENT of root / substr / date_add (points inside an argument
+           list, same overload, different values), pairs on all three configurations.
            tagg / tagg2 / tplain are passed AS TEXT (same text in both threads), as pairs only.
            The parsed AST of a statement is SHARED by all threads that execute it; each thread passes its own parameters.
 Configs    shared: one Connection for all threads; separate: one Connection per thread over the same
@@ -257,8 +259,22 @@ TEMPLATE_MENU = {
     'ju2': ("JOURNAL 'Income' AT units FROM vc(1) = 1", None, ('units(balance)',)),
 }
 TEMPLATE_PAIRS = [(cfg, p) for cfg in ('shared', 'different') for p in (('b1', 'b2'), ('bc1', 'bc2'), ('j1', 'j2'), ('ju1', 'ju2'))]
+# Points INSIDE an argument list: vy(..) is a later ARGUMENT of a function with several arguments, so a thread can be
+# parked between the evaluation of the first and of the last argument of one call.  The two statements of a pair call
+# the SAME overload with different argument values.
+ARG_MENU = {
+    'fa': ("SELECT root(account, vy(2)) AS r WHERE account ~ 'Assets:A'", None, ()),
+    'fb': ("SELECT root(account, vy(1)) AS r WHERE account ~ 'Income'", None, ()),
+    'fs': ("SELECT substr(account, vy(0), vy(6)) AS t WHERE account ~ 'Assets:A'", None, ()),
+    'fs2': ("SELECT substr(narration, vy(1), vy(2)) AS t WHERE account ~ 'Assets:B|Income'", None, ()),
+    'fh': ("SELECT substr(s, vy(0), vy(1)) AS t FROM #ht", None, ()),
+    'fd': ("SELECT date_add(date, vy(1)) AS d WHERE account ~ 'Assets:A'", None, ()),
+    'fd2': ("SELECT date_add(date, vy(7)) AS d WHERE account ~ 'Income'", None, ()),
+}
+ARG_PAIRS = [(cfg, p) for cfg in ('shared', 'separate', 'different') for p in (('fa', 'fb'), ('fs', 'fs2'), ('fs', 'fh'), ('fd', 'fd2'))]
 MENU.update(FROM_MENU)
 MENU.update(TEMPLATE_MENU)
+MENU.update(ARG_MENU)
 TEXT_PAIRS = [('tagg', 'tagg'), ('tagg', 'tagg2'), ('tagg', 'tplain'), ('tplain', 'tplain')]
 CANARY = ('canary', 'canary')
 MENU['canary'] = ("SELECT c FROM #canary", None, ())      # not part of IDS: explored separately, see run()
@@ -632,6 +648,9 @@ def plan(ctx):
     pts.update({sid: count_points('yield', sid, seed) for sid in list(FROM_MENU) + list(TEMPLATE_MENU)})
     for config, ids in TEMPLATE_PAIRS + FROM_PAIRS:
         add('yield', config, ids, None, sched.interleavings(*[pts[s] + 1 for s in ids]), 20)
+    pts.update({sid: count_points('yield', sid, seed) for sid in ARG_MENU})
+    for config, ids in ARG_PAIRS:
+        add('yield', config, ids, None, sched.interleavings(*[pts[s] + 1 for s in ids]), 600)
     for config in CONFIGS:
         for ids in pairs:
             add('yield', config, ids, None, sched.interleavings(*[pts[s] + 1 for s in ids]), 600)
@@ -839,7 +858,7 @@ def _run(ctx):
                   '3 threads: all schedules with <= 2 preemptions for %d triples (shared and different configurations; the quick '
                   'subset in the separate configuration); text statements: all interleavings of %s incl. parse points; FROM-qualified and BALANCES/JOURNAL pairs: %s'
                   % (len(total.sets['items|yield|shared|2']), len(total.sets['items|yield|shared|3']), TEXT_PAIRS + PARSE_PAIRS,
-                     [f'{c}:{"+".join(i)}' for c, i in FROM_PAIRS + TEMPLATE_PAIRS]))
+                     [f'{c}:{"+".join(i)}' for c, i in FROM_PAIRS + TEMPLATE_PAIRS + ARG_PAIRS]))
                  + ('; line granularity (sys.settrace, a point before every line of beanquery/*.py): all schedules with <= 1 '
                     'preemption for all pairs in the shared and different configurations; <= 2 preemptions with line points restricted to the modules '
                     'holding the shared state for %s (at most %d executions per sub-shard)'
